@@ -24,8 +24,8 @@ set_option maxRecDepth 100000 in
 /-- test by kernel evaluation of the level-only machine: degrees 1 … 63, lazy or not -/
 theorem depthOK_below_64 : ∀ d, d < 63 → ∀ lazy : Bool, depthOK (d + 1) lazy = true := by decide +kernel
 
-/-- scale-invariant (BFV) mode: from the smallest accepted input level `Depth() = ⌈log2 d⌉`, no level consumed -/
-def bfvOK (d : Nat) (lazy : Bool) : Bool := levelRunOK false true d lazy (depthCheck d) (depthCheck d)
+/-- scale-invariant (BFV) mode: from input level 0 (every level is accepted), no level consumed -/
+def bfvOK (d : Nat) (lazy : Bool) : Bool := levelRunOK false true d lazy 0 0
 
 set_option maxRecDepth 100000 in
 theorem bfvOK_below_64 : ∀ d, d < 63 → ∀ lazy : Bool, bfvOK (d + 1) lazy = true := by decide +kernel
